@@ -442,7 +442,7 @@ def check_c13(out, tier, seed):
         t = by_id[tid]
         props = c.attribute(clauses, "ver")
         if "C13" in props:
-            out.violations.append(dict(family="core", clauses=[x for x in clauses if c.CLAUSE_PROP.get(x) == "C13"],
+            out.violations.append(dict(family="core", clauses=[x for x in clauses if "C13" in c.attribute([x], "ver")],
                                        all_clauses=clauses, event=ev, trace=tid, cfg=t["cfg"], ops=t["src"][:ev],
                                        res=[e["res"] for e in t["ev"][:ev]],
                                        what="clauses %s at call %d" % (",".join(clauses), ev)))
